@@ -19,7 +19,7 @@ from xv.harness import shash
 
 ID = "C28"
 LEVEL = "exploration"
-RULE = ("a case is (pure single-block arith function over one integer type i8/i16/i32/i64/index: 2-14 ops from "
+RULE = ("a case is (module of 1-3 pure single-block arith functions (later ones fresh or an identical copy of the first, so constants and sub-expressions occur in several functions) over one integer type i8/i16/i32/i64/index: 2-14 ops from "
         "addi/muli/subi/shli/andi/ori/xori and constants 0/1/2/3/-1 with shared sub-terms, dead ops and 1-3 returns; a set "
         "of 0-5 rewrite rules drawn from the refsem-validated candidates (identities with constants 0/1/2, commutativity, "
         "associativity, distributivity / factoring, x*2 -> x<<1, x+x -> x*2, x-x -> 0 ...) rendered as PDL with constant or "
@@ -123,7 +123,7 @@ def run_case(L, case, workdir, interner, snapshot=None):
 
     def before_extract(m):
         if snapshot is not None:
-            snapshot.update(L.egraph_reference(L.main_func(m), lambda name: table.get(name, default), interner))
+            snapshot.update(L.module_egraph_reference(m, lambda name: table.get(name, default), interner))
     try:
         ctx, m = _cpu_limited(lambda: L.run_pipeline(case["func"] + ptext, bool(rules) or case.get("empty_rule_pipeline", False),
                                                     case["max_iterations"], tuple(cm), workdir, st, before_extract))
@@ -131,17 +131,17 @@ def run_case(L, case, workdir, interner, snapshot=None):
         return ("raised", st.get("stage"), "no-termination", f"more than {CPU_LIMIT_S} CPU-s in {st.get('stage')}"), None, st, ptext
     except Exception as e:  # noqa: BLE001
         return ("raised", st.get("stage"), exc_key(e), str(e).strip().splitlines()[-1][:200] if str(e).strip() else ""), None, st, ptext
-    f = L.main_func(m)
-    left = sorted({o.name for o in f.walk() if o.name.startswith("equivalence.")})
+    fs = L.funcs(m)
+    left = sorted({o.name for f in fs for o in f.walk() if o.name.startswith("equivalence.")})
     if left:
         return ("eclass-left", tuple(left)), m, st, ptext
     try:
-        f.verify()
+        m.verify()  # whole module: also catches a function using a value of another function (IsolatedFromAbove)
     except Exception as e:  # noqa: BLE001
         return ("invalid", type(e).__name__ + ": " + str(e).strip().splitlines()[-1][:160]), m, st, ptext
-    if not L.is_acyclic(f):
+    if not all(L.is_acyclic(f) for f in fs):
         return ("cyclic",), m, st, ptext
-    return ("ok", L.expr_form(f, interner)), m, st, ptext
+    return ("ok", L.module_form(m, interner)), m, st, ptext
 
 
 def work(job):
@@ -189,20 +189,37 @@ def work(job):
                 k = rng.choice([0, 0, 1, 2, 3, 3, 4, 5])
                 chosen = rng.sample(sound, k)
                 rules = [r[0] for r in chosen]
-                ftext, argt, nops, ty = L.gen_func(rng, rng.choice(L.PROG_TYPES + ["index"]),
-                                                   plant=[(r[1], r[2]) for r in chosen if rng.random() < 0.75])
+                ty = rng.choice(L.PROG_TYPES + ["index"])
+                nfuncs = rng.choice([1, 1, 2, 2, 3])
+                ftext, fsigs = "", []
+                first = None
+                for fi in range(nfuncs):
+                    fname = "main" if fi == 0 else f"aux{fi}"
+                    if first is not None and rng.random() < 0.35:
+                        # identical body under another name: every sub-expression / constant exists in two functions
+                        t1, a1 = first[0].replace("@main(", f"@{fname}(", 1), first[1]
+                    else:
+                        t1, a1, _n, _t = L.gen_func(rng, ty, plant=[(r[1], r[2]) for r in chosen if rng.random() < 0.75], name=fname)
+                    if first is None:
+                        first = (t1, a1)
+                    ftext += t1
+                    fsigs.append([fname, a1])
+                argt = fsigs[0][1]
                 cm = ["default", rng.choice([1, 1, 3])] if rng.random() < 0.5 else \
                     ["file", {nm: rng.randint(1, 9) for nm in L.OPS.values()} | {"arith.constant": rng.randint(1, 3)}, 1]
                 maxit = rng.randint(1, 20) if rng.random() < 0.6 else 20
                 if EXPANDING & set(rules):
                     maxit = min(maxit, rng.choice([2, 3, 4, 6]))  # these rule sets never saturate: bounded exploration
-                case = {"func": ftext, "type": ty, "argtypes": argt, "rules": rules,
+                case = {"func": ftext, "type": ty, "argtypes": argt, "funcs": fsigs, "rules": rules,
                         "max_iterations": maxit, "cost_mode": cm,
                         "reuse_const": rng.random() < 0.7, "render_seed": rng.getrandbits(32), "input_seed": rng.getrandbits(32),
                         "empty_rule_pipeline": (k == 0 and rng.random() < 0.5)}
             journal(case["func"])
             T.res["evaluations"] += 1
             T.c("functions")
+            T.c("functions_in_modules", len(case.get("funcs") or [1]))
+            if len(case.get("funcs") or [1]) > 1:
+                T.c("multi_function_modules")
             T.c("functions_with_rules" if case["rules"] else "functions_without_rules")
             for rn in case["rules"]:
                 T.c("rule_used:" + rn)
@@ -210,7 +227,7 @@ def work(job):
             m0 = Parser(new_ctx(), case["func"]).parse_module()
             m0.verify()
             interner = L.Interner()
-            form0 = L.expr_form(L.main_func(m0), interner)
+            form0 = L.module_form(m0, interner)
             snap: dict = {}
             out, m, st, ptext = run_case(L, case, workdir, interner, snap)
             T.c("eclasses_created", st.get("eclasses_created", 0))
@@ -239,12 +256,12 @@ def work(job):
                 if out[2] == "no-termination":
                     hangs += 1
             elif out[0] == "eclass-left":
-                problems.append(("eclass-op-left-after-extract", f"extracted function still contains {out[1]}", {"extracted": L.ir_text(L.main_func(m))}))
+                problems.append(("eclass-op-left-after-extract", f"extracted function still contains {out[1]}", {"extracted": L.funcs_text(m)}))
             elif out[0] == "cyclic":
                 problems.append(("extract:cyclic-use-in-extracted-function", "an op of the extracted function uses (transitively) its own result",
-                                 {"extracted": L.ir_text(L.main_func(m))}))
+                                 {"extracted": L.funcs_text(m)}))
             elif out[0] == "invalid":
-                problems.append(("extracted-function-does-not-verify", out[1], {"extracted": L.ir_text(L.main_func(m))}))
+                problems.append(("extracted-function-does-not-verify", out[1], {"extracted": L.funcs_text(m)}))
             else:
                 T.c("pipelines_completed")
                 form1 = out[1]
@@ -255,32 +272,32 @@ def work(job):
                     if snap["returns"] != form1[0]:
                         problems.append(("extract:program-is-not-the-designated-min-cost-extraction",
                                          "the returned expressions differ from the nodes designated by min_cost_index",
-                                         {"extracted": L.ir_text(L.main_func(m))}))
+                                         {"extracted": L.funcs_text(m)}))
                 if not case["rules"]:
                     T.c("no_rule_roundtrips")
                     extra_ops = _multiset_minus(form1[1], form0[1])
                     if form1[0] != form0[0] or extra_ops:
                         problems.append(("no-rules:program-changed", "create-eclasses + add-costs + extract changed the program",
-                                         {"extracted": L.ir_text(L.main_func(m))}))
+                                         {"extracted": L.funcs_text(m)}))
                     else:
                         T.c("no_rule_roundtrips_identical_modulo_order_and_dead_ops")
-                nubd = L.use_before_def(L.main_func(m))
+                nubd = sum(L.use_before_def(f) for f in L.funcs(m))
                 executable = True
                 if nubd:
                     # right ops in an order that is not executable: reported under its own key; the comparison below
                     # runs on the topologically sorted block, so a wrong RESULT is still seen (and keyed differently)
                     T.c("extracted_functions_with_use_before_def")
-                    before = L.ir_text(L.main_func(m))
-                    if not L.toposort_block(L.main_func(m)):
+                    before = L.funcs_text(m)
+                    if not all(L.toposort_block(f) for f in L.funcs(m)):
                         raise RuntimeError("acyclic block could not be sorted (harness bug)")
                     problems.append((UBD_KEY, f"{nubd} operand(s) of the extracted function are defined after their use",
                                      {"extracted": before}))
                 bad = compare_results(L, m0, m, case, T)
                 if bad:
                     problems.append((bad[0], f"args {bad[1]}: source returns {bad[2]}, extracted returns {bad[3]}",
-                                     {"args": bad[1], "want": bad[2], "got": bad[3], "extracted": L.ir_text(L.main_func(m))}))
+                                     {"args": bad[1], "want": bad[2], "got": bad[3], "extracted": L.funcs_text(m)}))
                 elif len(T.res["samples"]) < 2 and form1 != form0:
-                    T.res["samples"].append({"function": case["func"], "rules": case["rules"], "extracted": L.ir_text(L.main_func(m)),
+                    T.res["samples"].append({"function": case["func"], "rules": case["rules"], "extracted": L.funcs_text(m),
                                              "max_iterations": case["max_iterations"], "cost_mode": case["cost_mode"]})
             if not problems:
                 continue
@@ -310,8 +327,9 @@ def work(job):
                         out3, m3, _st3, _p3 = run_case(L, dict(case, rules=rest), workdir, interner)
                         ok3 = out3[0] == "ok"
                         if ok3:
-                            if L.use_before_def(L.main_func(m3)):
-                                L.toposort_block(L.main_func(m3))
+                            for f3 in L.funcs(m3):
+                                if L.use_before_def(f3):
+                                    L.toposort_block(f3)
                             ok3 = compare_results(L, m0, m3, case) is None
                         det["correct_without_the_zero_constant_rules"] = ok3
                         if ok3:
@@ -364,9 +382,10 @@ def compare_results(L, m0, m, case, T=None):
     from xv import genprog, refsem
     irng = random.Random(case["input_seed"])
     bad = None
-    for args in genprog.gen_inputs(irng, case["argtypes"], NINPUTS):
+    sigs = case.get("funcs") or [["main", case["argtypes"]]]
+    for fname, args in [(fn, a) for fn, at in sigs for a in genprog.gen_inputs(irng, at, NINPUTS if len(sigs) == 1 else 5)]:
         try:
-            want = refsem.run(m0, "main", args)
+            want = refsem.run(m0, fname, args)
         except refsem.Undefined:
             if T:
                 T.c("inputs_excluded_source_undefined")
@@ -374,12 +393,12 @@ def compare_results(L, m0, m, case, T=None):
         if T:
             T.c("comparisons")
         try:
-            got = refsem.run(m, "main", args)
+            got = refsem.run(m, fname, args)
         except refsem.Undefined as e:
-            bad = bad or ("extracted-program-introduces-undefined-behaviour", args, want[0], "Undefined: " + str(e)[:80])
+            bad = bad or ("extracted-program-introduces-undefined-behaviour", [fname] + list(args), want[0], "Undefined: " + str(e)[:80])
             continue
         if got != want:
-            bad = bad or ("extracted-program-result-differs", args, want[0], got[0])
+            bad = bad or ("extracted-program-result-differs", [fname] + list(args), want[0], got[0])
         elif T:
             T.c("comparisons_equal")
     return bad
@@ -411,6 +430,8 @@ def finish(agg, tier):
     if c.get("eclass_unions", 0) == 0 or c.get("eclass_unions_by_congruence_repair", 0) < (15 if tier == "quick" else 500):
         inc.append(f"e-class merging hardly reached: {c.get('eclass_unions', 0)} unions, "
                    f"{c.get('eclass_unions_by_congruence_repair', 0)} by congruence repair")
+    if c.get("multi_function_modules", 0) < (200 if tier == "quick" else 5000):
+        inc.append(f"only {c.get('multi_function_modules', 0)} modules with several functions")
     if c.get("multi_node_classes", 0) == 0 or c.get("extracted_program_differs_structurally", 0) == 0:
         inc.append("saturation never merged e-classes / extraction never changed a program")
     return {"inconclusive": inc, "coverage": {}}
